@@ -315,6 +315,19 @@ class Gen:
             s = self.expr(("seq", elT), env, d - 1)
             if s is None:
                 return None
+            if elT == ("rec", "evt") and r.random() < 0.35:
+                # a guard followed by a predicate that is only defined on what the guard lets
+                # through (First of the now non-empty collection)
+                a_, b_, c_ = self.fresh(), self.fresh(), self.fresh()
+                guard = r.choice([f"Count({a_}.jets) > 0",
+                                  f"Count(Where({a_}.jets, lambda {c_}: {c_}.pt >= 0)) > 0",
+                                  f"Count(Select({a_}.jets, lambda {c_}: {c_}.eta)) > 0"])
+                pred = r.choice([f"First({b_}.jets).pt > {r.randint(0, 3)}",
+                                 f"First({b_}.jets).eta < {b_}.x",
+                                 f"First(Select({b_}.jets, lambda {c_}: {c_}.pt)) >= {r.randint(0, 2)}"])
+                if a_ != c_ and b_ != c_:
+                    return call("Where", call("Where", s, f"(lambda {a_}: {guard})"),
+                                f"(lambda {b_}: {pred})")
             l = self.lam(elT, "bool", env, d - 1)
             return None if l is None else call("Where", s, l)
         if o == "selectmany":
